@@ -3,6 +3,7 @@ CONSTANTS Strategy = "rename"
           Granularity = "full"
           Locking = TRUE
           KeepEmpty = FALSE
+          StampAt = "stat"
           MaxSec = 1
           MaxMod = 6
 INVARIANTS EventuallyVisible ObserversNotified NoFatal GettersTotal MergeKeepsOthers CommentsAndOrderSurvive WriteReadBack WriteReadBackMem AtomicOnDisk WriteInstalls
